@@ -177,4 +177,9 @@ def check(ctx: Ctx) -> str:
         catchable = sorted(anc & {"LookupError", "KeyError", "IndexError", "TypeError", "AttributeError", "ValueError", "ArithmeticError", "StopIteration", "RuntimeError", "OSError"})
         ctx.check(not catchable, f"hierarchy:{exc}", f"exceptions:{exc}", f"{exc} is also a {catchable}",
                   f"{exc} inherits from {catchable}: Environment.getitem / getattr (and the sandbox overrides, filters such as attr / map) catch these around data access, so `{{{{ missing[0] }}}}` - Undefined.__getitem__ raising {exc} - is swallowed and yields a fresh undefined instead of failing", "src/jinja2/exceptions.py", detail={"builtin_ancestors": sorted(anc)})
+    # the lookup helpers swallow only the reviewed lookup signals - an UndefinedError raised by
+    # an undefined operand must pass through them (rule owned by C38)
+    from . import c38
+
+    ctx.run_imported("C38", {"R1"}, c38.check)
     return __doc__ or ""
